@@ -414,4 +414,27 @@ SEGMENTS = {
                   (r"let mut dec_ox = DecompressorOxide::new\(\);", "let mut dec_ox = ();"),
                   (r"inflate\(&mut dec_ox, compressed_data, dst, 0, 0\)", "self.k_rc_inflate(compressed_data, dst)")],
     ),
+    # ---- which table / cache / key function each flush driver hands to flush_meta_generic
+    "FR": dict(
+        parts=[
+            dict(fn="flush_refcount", start="FULL",
+                 sig="pub(crate) fn seg_fr_refcount(&self) -> Qcow2Result<()>",
+                 await_calls=["flush_meta_generic"],
+                 rewrites=[(r"self\.reftable\.read\(\)\.await", "self.fr_reftable.as_ref().unwrap().kread()"),
+                           (r"&self\.refblock_cache", "KWhich::Rb", 0),
+                           (r"self\.rb_slice_key_of_rt_off\(off\)", "self.seg_k0_rb(off)", 0),
+                           (r"self\.l2_slice_key_of_l1_off\(off\)", "self.seg_k0_l2(off)", 0),
+                           (r"&self\.l2cache", "KWhich::L2", 0),
+                           (r"self\.k_flush_meta_generic\(", "self.k_fr_flush_meta_generic(")]),
+            dict(fn="flush_mapping", start="FULL",
+                 sig="pub(crate) fn seg_fr_mapping(&self, l1: &L1Table) -> Qcow2Result<()>",
+                 await_calls=["flush_meta_generic"],
+                 rewrites=[(r"&self\.l2cache", "KWhich::L2", 0),
+                           (r"&self\.refblock_cache", "KWhich::Rb", 0),
+                           (r"self\.l2_slice_key_of_l1_off\(off\)", "self.seg_k0_l2(off)", 0),
+                           (r"self\.rb_slice_key_of_rt_off\(off\)", "self.seg_k0_rb(off)", 0),
+                           (r"self\.k_flush_meta_generic\(", "self.k_fr_flush_meta_generic(")]),
+        ],
+        file="src/dev/cache.rs",
+    ),
 }
